@@ -156,6 +156,15 @@ func init() {
 		"vImplies": func(in *Interp, fn *ssa.Function, a []Value) Value {
 			return in.ts.Implies(a[0].(*Term), a[1].(*Term))
 		},
+		"vFork": func(in *Interp, fn *ssa.Function, a []Value) Value {
+			return in.ts.Bool(in.branch(a[0].(*Term)))
+		},
+		"vConcrete": func(in *Interp, fn *ssa.Function, a []Value) Value {
+			t := a[0].(*Term)
+			lo, hi := concreteInt(a[1]), concreteInt(a[2])
+			in.obligationAssume(in.ts.And(in.ts.SLE(in.ts.BV(uint64(int64(lo)), 64), t), in.ts.SLE(t, in.ts.BV(uint64(int64(hi)), 64))))
+			return in.ts.BV(uint64(int64(in.concretize(t, lo, hi, "vConcrete"))), 64)
+		},
 		"vSymbolic": func(in *Interp, fn *ssa.Function, a []Value) Value { return in.ts.True },
 	}
 
@@ -576,5 +585,19 @@ func (in *Interp) flushAsserts() {
 		if in.feasible(bad) {
 			in.recordViolation("assert", p.id, "assertion "+p.id+" fails", bad, p.kfID, p.region)
 		}
+	}
+}
+
+// obligationAssume: harness-side range restriction used by vConcrete (an assumption, flushed like vAssume).
+func (in *Interp) obligationAssume(c *Term) {
+	if in.spec > 0 {
+		panic(specAbort{"assume in speculation"})
+	}
+	in.flushAsserts()
+	switch in.decide(c) {
+	case 0:
+		panic(pathEnd{"infeasible"})
+	case 2:
+		in.assume(c)
 	}
 }
